@@ -83,6 +83,11 @@ type Dir struct {
 	// Empty means no body, which lets a client reuse its connection even if it does not read
 	// error responses to the end.
 	NotFoundBody []byte
+	// GzipText makes the server behave like Apache mod_deflate / nginx gzip / a CDN: a state
+	// file (text) is sent with Content-Encoding: gzip when the request says Accept-Encoding:
+	// gzip. (Go's transport adds that header by itself and then undoes the coding; a caller
+	// that sets the header has to undo it.) Data files are .gz bodies and stay untouched.
+	GzipText bool
 }
 
 // Get returns the state file of sequence n, if present.
@@ -119,6 +124,8 @@ type Planet struct {
 	epoch      int64 // epoch of the loaded directory
 	closed     bool  // Observed has been called: the lookup of this epoch is over
 	late       int64 // requests that arrived for a finished epoch
+	gzipped    int64 // state files sent with Content-Encoding: gzip
+	zw         *gzip.Writer
 	step       int64 // directory version inside the epoch (Swap), stamped on requests by Client
 	handed     int64 // response bodies handed to the caller through Client
 	bclosed    int64 // ... of which closed
@@ -141,7 +148,16 @@ func NewPlanet() *Planet {
 }
 
 // Close shuts the server down.
-func (p *Planet) Close() { p.Server.Close() }
+func (p *Planet) Close() {
+	p.mu.Lock()
+	c := p.client
+	p.mu.Unlock()
+	if c != nil {
+		c.CloseIdleConnections()
+	}
+	p.Server.Client().CloseIdleConnections()
+	p.Server.Close() // waits for the serving goroutines
+}
 
 // BaseURL is what the library's Datasource.BaseURL must be set to.
 func (p *Planet) BaseURL() string {
@@ -371,9 +387,36 @@ func (p *Planet) handle(w http.ResponseWriter, r *http.Request) {
 		w.WriteHeader(status)
 		return
 	}
+	isText := strings.HasSuffix(r.URL.Path, "state.txt") || strings.HasSuffix(r.URL.Path, "state.yaml")
+	if status == http.StatusOK && isText && p.dir != nil && p.dir.GzipText {
+		if strings.Contains(r.Header.Get("Accept-Encoding"), "gzip") {
+			var zb bytes.Buffer
+			if p.zw == nil { // one compressor, reused (a new one costs about a megabyte)
+				p.zw, _ = gzip.NewWriterLevel(&zb, gzip.BestSpeed)
+			} else {
+				p.zw.Reset(&zb)
+			}
+			p.zw.Write(body)
+			p.zw.Close()
+			body = zb.Bytes()
+			w.Header().Set("Content-Encoding", "gzip")
+			w.Header().Set("Vary", "Accept-Encoding")
+			p.gzipped++
+		}
+	}
+	w.Header().Set("Content-Type", "text/plain")
 	w.Header().Set("Content-Length", fmt.Sprint(len(body)))
 	w.WriteHeader(status)
 	w.Write(body)
+}
+
+// TakeGzipped returns and resets the number of state files sent gzip-encoded.
+func (p *Planet) TakeGzipped() int64 {
+	p.mu.Lock()
+	defer p.mu.Unlock()
+	n := p.gzipped
+	p.gzipped = 0
+	return n
 }
 
 func (p *Planet) answer(r *http.Request, path string) (int, []byte) {
